@@ -305,6 +305,11 @@ def main(tier, replay=None):
             acts = concretise(src, s, ops, modes)
         except walk.SourceRejected:
             return
+        except Failure:
+            # the model-guided choice of actions needs the initial state to decode (C09's business); reproducibility
+            # is still decided - on a plain list of action indices
+            acts = [int(o[1]) if len(o) > 1 and isinstance(o[1], int) else 0 for o in ops]
+            rep.count("trajectory-without-model-guidance(setup failed: other property)")
         tlist.append(dict(what="traj", source=src, seed=s, actions=acts, modes=modes))
     gt()
 
